@@ -6,7 +6,7 @@ PROP = 'C17'
 PROPCHK = 'C17_prop'
 THEOREMS = ['C17_changed_entities_exact', 'C17_recorded_names', 'C17_one_entry_per_class',
             'C17_rows_iff_operations', 'C17_example']
-RULE = ('histories over the blog shape (3 versioned classes + 1 non-versioned) touching random subsets of the classes in '
+RULE = ('histories over the blog shape (3 versioned classes + 1 non-versioned), a joined/single-table hierarchy and a shape with two versioned classes of the SAME __name__ in different modules (use_module_name), touching random subsets of the classes in '
         '1-4 flushes per transaction, with and without TransactionChangesPlugin; at every commit the transaction_changes '
         'rows are compared with the classes that have a version row stamped with each transaction id (none missing, none '
         'extra, one entry per class), and at the end Transaction.changed_entities of every record is compared with the '
@@ -19,7 +19,9 @@ def budget(tier):
 
 
 def gen_cases(rng, n, tier):
-    cfgs = [c for c in B.all_cfgs('blog') + B.all_cfgs('inh')[::2] if not c['null_delete']]
+    # 'dup': two versioned classes with the same __name__ (different modules) - one recorded name, two classes
+    cfgs = [c for c in B.all_cfgs('blog') + B.all_cfgs('inh')[::2] + [d for d in B.all_cfgs('dup') if d['changes']]
+            if not c['null_delete']]
     # flat shapes: Transaction.changed_entities is read for every record at the end of the run (a polymorphic query
     # of a hierarchy returns subclass versions under the parent class too: not compared there)
     cfgs = [dict(c, read_changed_entities=(c['shape'] != 'inh')) for c in cfgs]
